@@ -130,12 +130,86 @@ def _case(draw, tier):
             alt = {"node": a["name"], "how": draw(st.sampled_from(opts))}
     history = [{"variant": draw(st.integers(0, 3)), "runner": draw(st.sampled_from(["sync", "async"])), "alt": alt is not None and draw(st.booleans())} for _ in range(nruns)]
     lru_ops = draw(st.lists(st.tuples(st.sampled_from(["get", "set", "set"]), st.integers(0, 6)), max_size=40))
+    # raw disk entries: arbitrary payload / signature objects written behind DiskCache's back
+    payload = st.one_of(st.binary(max_size=40), st.text(max_size=8), st.integers(), st.none(), st.just("PICKLE_OK"), st.just("PICKLE_GARBAGE"))
+    sig = st.one_of(st.just("CORRECT"), st.just("ABSENT"), st.text(alphabet="0123456789abcdef", min_size=64, max_size=64), st.text(max_size=10), st.binary(max_size=8), st.integers())
+    raw = draw(st.lists(st.tuples(payload, sig), max_size=6)) if backend == "disk" else []
     return {"nodes": nodes, "labels": labels, "backend": backend, "history": history, "faults": draw(st.booleans()), "fault_variant": draw(st.integers(0, 2)),
-            "alt": alt, "lru_ops": lru_ops, "lru_size": draw(st.sampled_from([1, 2, 3, 4, 5]))}
+            "alt": alt, "lru_ops": lru_ops, "lru_size": draw(st.sampled_from([1, 2, 3, 4, 5])),
+            "raw": [[_j(a), _j(b)] for a, b in raw]}
+
+
+def _j(x):
+    return {"__bytes__": list(x)} if isinstance(x, bytes) else x
+
+
+def _unj(x):
+    return bytes(x["__bytes__"]) if isinstance(x, dict) and "__bytes__" in x else x
 
 
 def strategy(tier):
     return _case(tier)
+
+
+def _check_raw_entries(case, tmpdir, stats):
+    """DiskCache.get over arbitrary stored (payload, signature) objects: a hit only for authentic bytes, never an exception,
+    never an unpickle of bytes whose signature does not verify."""
+    import diskcache
+
+    import hypergraph.cache as hc
+    from hypergraph.cache import DiskCache
+
+    if not case.get("raw"):
+        return
+    d = os.path.join(tmpdir, "raw")
+    dc = DiskCache(d)
+    with open(os.path.join(d, ".hypergraph_hmac_key"), "rb") as f:
+        dirkey = f.read()
+    raw_store = diskcache.Cache(d)
+    spy_ok = hasattr(hc, "pickle")
+    for i, (pl, sg) in enumerate(case["raw"]):
+        pl, sg = _unj(pl), _unj(sg)
+        key = f"rawkey{i}"
+        value = ("stored", i)
+        if pl == "PICKLE_OK":
+            pl = pickle.dumps(value)
+        elif pl == "PICKLE_GARBAGE":
+            pl = b"\x80\x04garbage-not-a-pickle"
+        if pl is None:
+            raw_store.delete(key)
+        else:
+            raw_store.set(key, pl)
+        authentic = False
+        if sg == "ABSENT":
+            raw_store.delete(key + ":hmac")
+        elif sg == "CORRECT":
+            if isinstance(pl, bytes):
+                raw_store.set(key + ":hmac", hmaclib.new(dirkey, key.encode() + pl, hashlib.sha256).hexdigest())
+                authentic = True
+            else:
+                raw_store.set(key + ":hmac", "0" * 64)
+        else:
+            raw_store.set(key + ":hmac", sg)
+        spy = _PickleSpy()
+        real = hc.pickle if spy_ok else None
+        try:
+            if spy_ok:
+                hc.pickle = spy
+            try:
+                hit, got = dc.get(key)
+            except Exception as e:  # noqa: BLE001
+                raise Violation("c09.raw_entry_raised", f"DiskCache.get over stored payload {type(pl).__name__} / signature {type(sg).__name__} raised {type(e).__name__}: {e}", payload=type(pl).__name__) from None
+        finally:
+            if spy_ok:
+                hc.pickle = real
+        stats["corrupted_requested"] += 1
+        if spy.loaded and not authentic:
+            raise Violation("c09.unauthenticated_unpickle", f"pickle.loads was called on a payload ({pl!r:.60}) whose signature ({sg!r:.40}) does not verify", how="raw")
+        want_hit = authentic and pl == pickle.dumps(value)
+        if hit != want_hit or (hit and got != value):
+            raise Violation("c09.raw_entry_served", f"DiskCache.get returned ({hit}, {got!r:.60}) for payload {pl!r:.60} with signature {sg!r:.40}; expected {'a hit' if want_hit else 'a miss'}", how="raw")
+    raw_store.close()
+    dc._cache.close()
 
 
 # ------------------------------------------------------------------------------------
@@ -372,6 +446,8 @@ def check_case(case, ev):
             _check_model(tag, attributed, cur_nodes, calls_u, ctx_c, model, keymap, stats, per_node_exec)
             # a hit must not invoke the function; a miss must
             _calls_by_node(cur_nodes, rec_c.events, ctx_c, hits=per_node_exec)
+        if tmpdir is not None:
+            _check_raw_entries(case, tmpdir, stats)
         # ---- fault enumeration on disk
         if tmpdir is not None and case["faults"]:
             _fault_matrix(case, gspec, nodes, tmpdir, stats, labels, ev)
